@@ -12,10 +12,8 @@ CONSTANTS
   MaxFeats = 1
   MaxFields = 2
   MaxVals = 3
-  EmitMin = 0
   MaxHist = 99
 INVARIANTS TypeOK
 PROPERTIES NeutralKeeps ChangeChanges SetsFollow
 VIEW View
-ACTION_CONSTRAINT EmitBehaviour
 CHECK_DEADLOCK FALSE
